@@ -1681,6 +1681,56 @@ def check_alloc(tier, seed, chk, prop):
     return [res]
 
 
+# ----------------------------------------------------------------------------------------
+# C18 (end to end) -- the byte format reaches the printed cells as configured, by every route
+# ----------------------------------------------------------------------------------------
+
+def check_c18(tier, seed, chk):
+    binary, model = ensure_built(tier, chk)
+    res = new_result("zoo-C18", tier)
+    t0 = time.time()
+    base = ["--bench", "--timer", "tsc", "--sample-count", "2", "--sample-size", "2", "--bytes-count", "1500000", "--items-count", "2500000"]
+    routes = [
+        ("default", [], {}, None, "decimal"),
+        ("cli binary", ["--bytes-format", "binary"], {}, None, "binary"),
+        ("cli decimal", ["--bytes-format", "decimal"], {}, None, "decimal"),
+        ("env binary", [], {"DIVAN_BYTES_FORMAT": "binary"}, None, "binary"),
+        ("cli decimal over env binary", ["--bytes-format", "decimal"], {"DIVAN_BYTES_FORMAT": "binary"}, None, "decimal"),
+        ("builder binary after the arguments", [], {}, "from_args;bytes_format=binary;main", "binary"),
+        ("builder binary before the arguments", [], {}, "default;bytes_format=binary;config_with_args;main", "binary"),
+        ("builder binary, decimal on the command line", ["--bytes-format", "decimal"], {}, "default;bytes_format=binary;config_with_args;main", "decimal"),
+    ]
+
+    def one(route):
+        name, argv, env, mode, want = route
+        e = dict(env)
+        if mode:
+            e["ZOO_MODE"] = mode
+        return route, run_zoo(binary, base + argv + ["^zoo::(alc|f00)"], e, clock=CLOCK, timeout=300)
+
+    for (name, argv, env, mode, want), r in pmap(one, routes):
+        count_run(res, r, len(r.out.splitlines()))
+        sig = {"check": "bytes-format-route", "route": name}
+        if r.rc != 0:
+            violation(res, dict(sig, **{"class": "crash"}), "route %s exited with %s: %s" % (name, r.rc, r.err[-300:]), r)
+            continue
+        cells = [c.strip() for line in r.out.splitlines() for c in line.split("│")]
+        dec = [c for c in cells if re.search(r"\d (K|M|G|T|P)B(/s)?$", c)]
+        bin_ = [c for c in cells if re.search(r"\d (Ki|Mi|Gi|Ti|Pi)B(/s)?$", c)]
+        other = [c for c in cells if re.search(r"\d (K|M|G|T|P)i(item|char)/s$|\d (K|M|G)iHz$", c)]
+        if other:
+            violation(res, dict(sig, **{"class": "binary-prefix-on-non-bytes"}), "route %s: non-byte throughputs carry binary prefixes: %s" % (name, other[:3]), r)
+        wrong, right = (dec, bin_) if want == "binary" else (bin_, dec)
+        if wrong or not right:
+            violation(res, dict(sig, **{"class": "prefix-family"}),
+                      "byte format %s configured through `%s`: byte sizes / throughputs are printed with the other family of prefixes %s (cells of the configured family: %d)" % (want, name, wrong[:3], len(right)), r)
+    res["distinct_outcomes"] = len(routes)
+    res["samples"] = [{"routes": [x[0] for x in routes]}]
+    res["bounds"] = {"routes": len(routes), "observed": "prefix family (KB.. vs KiB..) of every byte size / byte throughput cell of the forms and allocation families; non-byte throughputs never binary", "tier_zoo": tier}
+    res["wall_s"] = time.time() - t0
+    return [res]
+
+
 def check_c02(tier, seed, chk):
     return check_alloc(tier, seed, chk, "C02")
 
@@ -1689,7 +1739,7 @@ def check_c10(tier, seed, chk):
     return check_alloc(tier, seed, chk, "C10")
 
 
-CHECKS = {"C02": check_c02, "C10": check_c10, "C12": check_c12, "C13": check_c13, "C14": check_c14, "C17": check_c17, "C20": check_c20, "C16": check_c16, "C15": check_c15, "C03": check_c03, "C08": check_c08, "C04": check_c04, "C19": check_c19}
+CHECKS = {"C02": check_c02, "C10": check_c10, "C12": check_c12, "C13": check_c13, "C14": check_c14, "C17": check_c17, "C20": check_c20, "C16": check_c16, "C15": check_c15, "C03": check_c03, "C08": check_c08, "C04": check_c04, "C19": check_c19, "C18": check_c18}
 
 
 def run(job, tier, seed, chk):
